@@ -354,7 +354,7 @@ def r_decls(decls, sysid_of):
 
 
 DEFAULT_STYLE = {"xmldecl": "none", "quote": '"', "encoding": "UTF-8", "bom": False, "sep": "",
-                 "comment": False, "pi": False, "trailing": ""}
+                 "comment": False, "pi": False, "trailing": "", "pad": False}
 ENCODINGS = ["UTF-8", "utf-8", "ISO-8859-1", "US-ASCII", "us-ascii"]
 
 
@@ -363,7 +363,8 @@ def style_for(n):
     enc = ENCODINGS[n % len(ENCODINGS)]
     return {"xmldecl": ("none", "version", "encoding")[(n // 2) % 3], "quote": "\"'"[(n // 3) % 2],
             "encoding": enc, "bom": (n % 7 == 3) and enc.lower() == "utf-8", "sep": ("", "\n", "\n  ")[(n // 5) % 3],
-            "comment": n % 4 == 1, "pi": n % 6 == 2, "trailing": ("", "\n")[(n // 11) % 2]}
+            "comment": n % 4 == 1, "pi": n % 6 == 2, "trailing": ("", "\n")[(n // 11) % 2],
+            "pad": n % 89 == 7}         # a document larger than the SAX reader's 64 KiB buffer
 
 
 def g_style(rng):
@@ -388,6 +389,8 @@ def render_doc(doc, sysid_of):
         out.append(d + "?>" + sep)
     if st["comment"]:
         out.append("<!-- c20 -->" + sep)
+    if st.get("pad"):
+        out.append("<!-- " + "padding " * 9000 + "-->" + sep)
     if st["pi"]:
         out.append("<?c20 prolog?>" + sep)
     root = doc["body"][0][1]
@@ -1018,8 +1021,23 @@ def g_lookalikes_schema(rng, pre):
     out = []
     for _ in range(rng.randrange(1, 4)):
         t = rng.choice(ts)
-        k = rng.randrange(6)
-        if k == 0:
+        k = rng.randrange(9)
+        if k == 6:
+            # XSD-namespace import / include where they are not references: inside annotation/appinfo
+            out.append(E("xsd:annotation", [], E("xsd:appinfo", [],
+                         E("xsd:import", [("namespace", "urn:c20:decoy"), ("schemaLocation", t)]),
+                         E("xsd:include", [("schemaLocation", rng.choice(ts))]))))
+        elif k == 7:
+            out.append(E("xsd:complexType", [("name", "L" + g_word(rng, 2, 4))], E("xsd:sequence", [],
+                         E("xsd:element", [("name", "x"), ("type", "xsd:string")],
+                           E("xsd:annotation", [], E("xsd:documentation", [],
+                             E("xsd:include", [("schemaLocation", t)])))))))
+        elif k == 8:
+            out.append(E("xsd:annotation", [("xmlns:xsi", "http://www.w3.org/2001/XMLSchema-instance"),
+                                            ("xsi:schemaLocation", "urn:c20:decoy " + t),
+                                            ("xsi:noNamespaceSchemaLocation", rng.choice(ts))],
+                         E("xsd:documentation", [], "see " + t)))
+        elif k == 0:
             out.append(E("doc:include", [("xmlns:doc", VENDOR_NS), ("schemaLocation", t)]))
         elif k == 1:
             out.append(E("doc:import", [("xmlns:doc", VENDOR_NS), ("namespace", "urn:c20:decoy"),
@@ -1042,8 +1060,17 @@ def g_lookalikes_wsdl(rng, pre):
     """Children of wsdl:definitions in a foreign namespace named import, and documentation content."""
     ts = lookalike_targets(pre)
     out = []
-    k = rng.randrange(3)
-    if k == 0:
+    k = rng.randrange(5)
+    if k == 3:
+        # WSDL / XSD namespace import where it is not a reference: inside documentation, inside a message
+        out.append(E("wsdl:documentation", [], E("wsdl:import", [("namespace", "urn:c20:decoy"),
+                                                                 ("location", rng.choice(ts))]),
+                     E("xsd:import", [("namespace", "urn:c20:decoy"), ("schemaLocation", rng.choice(ts))])))
+    elif k == 4:
+        out.append(E("wsdl:message", [("name", "lookalike"), ("xmlns:xsi", "http://www.w3.org/2001/XMLSchema-instance"),
+                                      ("xsi:schemaLocation", "urn:c20:decoy " + rng.choice(ts))],
+                     E("wsdl:import", [("namespace", "urn:c20:decoy"), ("location", rng.choice(ts))])))
+    elif k == 0:
         out.append(E("ext:import", [("xmlns:ext", VENDOR_NS), ("namespace", "urn:c20:decoy"),
                                     ("location", rng.choice(ts))]))
     elif k == 1:
